@@ -109,7 +109,8 @@ def run_mc(prop, tier):
             core.tlc_must_hold(r, what)
         else:
             core.tlc_must_fail(r, what)
-        zero = [a for a, (cnt, _) in r.coverage.items() if cnt == 0]
+        # (an action that exists only for another variant of the module may be named as exempt by the job)
+        zero = [a for a, (cnt, _) in r.coverage.items() if cnt == 0 and a not in job.get("coverage_exempt", ())]
         if job.get("coverage") and zero and job.get("expect", "hold") == "hold":
             raise Machinery("%s: actions never taken: %s" % (what, zero))
         out.append({"module": job["module"], "cfg": job["cfg"], "expect": job.get("expect", "hold"),
